@@ -45,6 +45,10 @@ class Prop(common.PropertyCheck):
         for _ in range(self.budget(120, 1500)):
             yield {'k': 'data', 'neg': rng.choice(['none', 'tiny', 'small', 'large']), 'multi': rng.random() < 0.4,
                    'cont': rng.choice(['array', 'sample', 'sample_rfi']), 'over': rng.choice([None, 'T', 'M', 'W']), 'above': rng.random() < 0.4, 'seed': rng.randrange(1 << 30)}
+        # negative events in another channel of the sample only: the requested channel has none, so W = 0
+        for i in range(self.budget(8, 60)):
+            yield {'k': 'data', 'neg': 'none', 'multi': i % 2 == 1, 'cont': ['array', 'sample', 'sample_rfi', 'mixed'][i % 4], 'over': None, 'above': False,
+                   'seed': rng.randrange(1 << 30), 'neg_other': True}
         # a sample without events (everything gated out) still knows its range: alone, and as the widest member of a list
         for i in range(self.budget(6, 40)):
             yield {'k': 'data', 'neg': ['none', 'small', 'large'][i % 3], 'multi': i % 2 == 1, 'cont': 'sample', 'over': None, 'above': False,
@@ -141,6 +145,10 @@ class Prop(common.PropertyCheck):
                     d, _ = samples.load(spec, name='c18_empty.fcs')
                     rng_hi = float(d.range(1)[1])
                     d = d[:0]
+                if case.get('neg_other'):
+                    v = np.asarray(d)
+                    v[:, 1] = np.abs(v[:, 1]) + 5.0          # the requested channel: strictly positive, well above T*10**-M
+                    v[0, 0] = -250.0; v[3, 0] = -12.5        # the other channel holds negative events
                 datas.append(d)
                 col = np.asarray(d)[:, 1]
                 mins.append(float(col.min()) if col.size else float('inf')); maxs.append(float(col.max()) if col.size else float('-inf')); ranges.append(rng_hi)
